@@ -165,6 +165,9 @@ func (c *Connect) Unpack(r io.Reader) (err error) {
 	c.CleanStart = (1 & (connectFlags >> 1)) > 0
 	c.WillFlag = (1 & (connectFlags >> 2)) > 0
 	c.WillQos = 3 & (connectFlags >> 3)
+	if c.WillQos > Qos2 { // v311 [MQTT-3.1.2-14], v5 [MQTT-3.1.2-12]
+		return codes.ErrMalformed
+	}
 	if !c.WillFlag && c.WillQos != 0 { //[MQTT-3.1.2-11]
 		return codes.ErrMalformed
 	}
@@ -174,6 +177,9 @@ func (c *Connect) Unpack(r io.Reader) (err error) {
 	}
 	c.PasswordFlag = (1 & (connectFlags >> 6)) > 0
 	c.UsernameFlag = (1 & (connectFlags >> 7)) > 0
+	if IsVersion3X(c.Version) && c.PasswordFlag && !c.UsernameFlag { // v311 [MQTT-3.1.2-22]
+		return codes.ErrMalformed
+	}
 	c.KeepAlive, err = readUint16(bufr)
 	if err != nil {
 		return codes.ErrMalformed
